@@ -82,38 +82,18 @@ def build_arch(var):
 
 
 # ---------------------------------------------------------------------------------------------------------------
-# proposed known-finding entries (to be moved into known_findings.json by the coordinator, or dropped once /repo is repaired)
-PROVISIONAL = [dict(
-    property="C15", status="known", id="Farch1",
-    key=dict(impl="celt_fir_sse4_1", site="celt/x86/celt_lpc_sse4_1.c: _mm_packs_epi32 / SATURATE16 where celt_fir_c uses SROUND16"),
-    what=("fixed-point build, arch levels 3/4: celt_fir_sse4_1 saturates its output to [-32768, 32767] while the portable celt_fir_c saturates to [-32767, 32767] "
-          "(SROUND16): the two differ (-32768 against -32767) whenever the filtered sample hits the negative rail - reached by the decoder's packet-loss concealment "
-          "(LPC analysis of the excitation) on hard-clipped / full-scale input, after which the decoded PCM at levels 3/4 differs from levels 0-2"))]
+PROVISIONAL = []          # proposed known-finding entries (none: F15, the celt_fir_sse4_1 saturation, is fixed in /repo as 0f002d66)
 
 
 def known_entries():
-    ids = set()
-    out = []
-    for en in vf.known_findings("C15") + PROVISIONAL:
-        if en.get("id") not in ids:
-            ids.add(en.get("id"))
-            out.append(en)
-    return out
+    return vf.known_findings("C15") + PROVISIONAL
 
 
-def match_known(ev, j=None):
-    """Farch1 (celt_fir_sse4_1 saturation): a kernel case / in-situ summary of that implementation, or - in a fixed-point build whose run recorded such kernel
-    differences - a decoder twin whose PCM (not its final range) differs after a concealed frame.  Whether the event is exactly that finding and nothing
-    else is then decided by TLC with TolerateFirSat = TRUE (every differing sample is -32767 against -32768; only pairs of levels that select different
-    celt_fir implementations are excused)."""
+def match_known(ev):
+    """a known-finding key names fields of the rejected event (equality)"""
     for en in known_entries():
         key = en.get("key", {})
-        impl = key.get("impl")
-        if not impl:
-            continue
-        if ev.get("k") in ("kc", "is") and ev.get("impl") == impl:
-            return en
-        if ev.get("k") == "dec" and j is not None and j.variant.startswith("hkfix") and ev.get("clean") == 0 and getattr(j, "fir_neq", 0) > 0:
+        if key and all(ev.get(k) == v for k, v in key.items() if k != "site"):
             return en
     return None
 
@@ -251,12 +231,12 @@ def replay_text_of(j, ev_line=None, hist_id=None):
     return "V %s\n%s\n" % (j.variant, "\n".join(ln if ln else j.lines))
 
 
-def judge_file(ctx, j, path, what, cfg="ArchTrace.cfg"):
+def judge_file(ctx, j, path, what):
     """TLC judges one event file; returns (accepted, rejected line number, event dict or None)"""
     n = vf.count_lines(path)
     if n == 0:
         return True, None, None
-    acc, rej, r = vf.validate_seq(ctx, "ArchTrace", cfg, path, what, heap="3g")
+    acc, rej, r = vf.validate_seq(ctx, "ArchTrace", "ArchTrace.cfg", path, what, heap="3g")
     if acc and r.distinct != n + 1:
         raise vf.Infra("%s: TLC walked %d states for %d events" % (what, r.distinct, n))
     ev = None
@@ -329,8 +309,6 @@ def scan(ctx, j):
                         OBS["pvq_cases"] += 1
                         OBS["pvq_vectors_differ"] += 0 if e["same"] else 1
                 elif k == "is":
-                    if e["impl"] == "celt_fir_sse4_1":
-                        j.fir_neq = getattr(j, "fir_neq", 0) + e["neq"]
                     s = OBS["insitu"].setdefault("%s/%s/%s" % (e["impl"], "fix" if e["fx"] else "flt", e["mode"]), dict(compared=0, differ=0))
                     s["compared"] += e["cmp"]
                     s["differ"] += e["neq"]
@@ -383,10 +361,9 @@ def judge_job(ctx, j, confirm=True):
         if not os.path.exists(path):
             continue
         guard = 0
-        cfg = "ArchTrace.cfg"
         while True:
             guard += 1
-            acc, rej, ev = judge_file(ctx, j, path, what, cfg)
+            acc, rej, ev = judge_file(ctx, j, path, what)
             if acc:
                 break
             if ev is None or guard > 40:
@@ -395,13 +372,12 @@ def judge_job(ctx, j, confirm=True):
                 # coverage is judged over all runs together (see coverage()); a single chunk may miss a kernel
                 drop_line(path, rej)
                 continue
-            en = match_known(ev, j) if cfg == "ArchTrace.cfg" else None
+            en = match_known(ev)
             if en is not None:
-                # TLC rejected what looks like the listed finding: report it as known and judge the file again with exactly that finding tolerated
                 with LOCK:
                     ctx.kf_count[en.get("id", "?")] = ctx.kf_count.get(en.get("id", "?"), 0) + 1
                     ctx.kf_example.setdefault(en.get("id", "?"), (en, ev, replay_text_of(j, hist_id=hist_of(path, rej) if ev.get("k") == "dec" else None)))
-                cfg = "ArchTraceTol.cfg"
+                drop_line(path, rej)
                 continue
             hid = hist_of(path, rej) if ev.get("k") in ("enc", "dec") else None
             txt = replay_text_of(j, hist_id=hid)
@@ -442,31 +418,14 @@ def repeatable(ctx, txt, ev):
     run_job(ctx, j)
     if j.rc != 0:
         return True
-    with LOCK:
-        scan_quiet(j)
     for path in (j.out, j.kout):
-        cfg = "ArchTrace.cfg"
-        for _ in range(6):
-            acc, rej, e2 = judge_file(ctx, j, path, "C15 confirm", cfg)
-            if acc:
-                break
-            if e2 is not None and e2.get("k") == "cov":
-                drop_line(path, rej)
-            elif e2 is not None and cfg == "ArchTrace.cfg" and match_known(e2, j) is not None:
-                cfg = "ArchTraceTol.cfg"
-            else:
-                return True
+        acc, rej, e2 = judge_file(ctx, j, path, "C15 confirm")
+        while not acc and e2 is not None and e2.get("k") == "cov":
+            drop_line(path, rej)
+            acc, rej, e2 = judge_file(ctx, j, path, "C15 confirm")
+        if not acc:
+            return True
     return False
-
-
-def scan_quiet(j):
-    """the part of scan() that the known-finding matcher needs, without touching the evidence counters"""
-    j.fir_neq = 0
-    if j.kout and os.path.exists(j.kout):
-        with open(j.kout) as f:
-            for ln in f:
-                if '"k":"is"' in ln and "celt_fir_sse4_1" in ln:
-                    j.fir_neq += json.loads(ln)["neq"]
 
 
 _exe = {}
